@@ -35,9 +35,11 @@ int g_step_result; _Bool g_api_ok, g_open_ok; struct sqlite3_stmt *g_bound_stmt;
 long long g_col_i64[9]; int g_col_bytes[9]; const void *g_col_blob[9]; double g_col_dbl[9];
 static inline int sqlite3_reset(struct sqlite3_stmt *s) { return g_api_ok ? 0 : 1; }
 static inline int sqlite3_clear_bindings(struct sqlite3_stmt *s) { return g_api_ok ? 0 : 1; }
-static inline int sqlite3_bind_int64(struct sqlite3_stmt *s, int i, long long v) { g_bound_stmt = s; return g_api_ok ? 0 : 1; }
+long long g_bind_i64[10];
+static inline int sqlite3_bind_int64(struct sqlite3_stmt *s, int i, long long v) { g_bound_stmt = s; if (i >= 0 && i < 10) g_bind_i64[i] = v; return g_api_ok ? 0 : 1; }
 static inline int sqlite3_bind_text(struct sqlite3_stmt *s, int i, const char *p, int n, void *d) { g_bound_stmt = s; return g_api_ok ? 0 : 1; }
-static inline int sqlite3_step(struct sqlite3_stmt *s) { __CPROVER_assert(s == g_bound_stmt, "[P:C03] the statement that is stepped is the one that was just bound"); return g_step_result; }
+unsigned g_stepped;
+static inline int sqlite3_step(struct sqlite3_stmt *s) { __CPROVER_assert(s == g_bound_stmt, "[P:C03] the statement that is stepped is the one that was just bound"); g_stepped++; return g_step_result; }
 static inline long long sqlite3_column_int64(struct sqlite3_stmt *s, int i) { __CPROVER_assert(i >= 0 && i < 9 && s == g_bound_stmt, "column of the stepped statement"); return g_col_i64[i]; }
 static inline int sqlite3_column_bytes(struct sqlite3_stmt *s, int i) { __CPROVER_assert(i >= 0 && i < 9 && s == g_bound_stmt, "column of the stepped statement"); return g_col_bytes[i]; }
 static inline const void *sqlite3_column_blob(struct sqlite3_stmt *s, int i) { __CPROVER_assert(i >= 0 && i < 9 && s == g_bound_stmt, "column of the stepped statement"); return g_col_blob[i]; }
@@ -55,3 +57,16 @@ static inline void bdec_read_u64(struct bdec *d, uint64_t *out) { __CPROVER_asse
 uint64_t __CPROVER_uninterpreted_engine_key_of(uint64_t);
 #define verif_engine_key_of(x) __CPROVER_uninterpreted_engine_key_of(x)
 size_t g_k;
+/* --- encode side (setRuleResult): the bind calls are recorded per parameter index, the encoder is a ghost word sequence --- */
+const void *g_bind_ptr[10]; int g_bind_bytes[10]; double g_bind_dbl[10];
+static inline int sqlite3_bind_blob(struct sqlite3_stmt *s, int i, const void *p, int n, void *d) {
+  __CPROVER_assert(i >= 1 && i < 10, "bind index of the statement"); g_bound_stmt = s; g_bind_ptr[i] = p; g_bind_bytes[i] = n; return g_api_ok ? 0 : 1; }
+static inline int sqlite3_bind_double(struct sqlite3_stmt *s, int i, double v) {
+  __CPROVER_assert(i >= 1 && i < 10, "bind index of the statement"); g_bound_stmt = s; g_bind_dbl[i] = v; return g_api_ok ? 0 : 1; }
+struct benc { char _e; };
+uint64_t g_enc_words[512]; size_t g_enc_n;
+static inline struct benc benc_make(void) { struct benc b; g_enc_n = 0; return b; }
+static inline void benc_write_u64(struct benc *b, uint64_t w) { __CPROVER_assert(g_enc_n < 512, "encoder model capacity"); g_enc_words[g_enc_n] = w; g_enc_n++; }
+static inline const void *benc_data(struct benc *b) { return g_enc_words; }
+static inline size_t benc_size(struct benc *b) { return 8 * g_enc_n; }
+static inline size_t vbytes_size(const vbytes *v) { return v->len; }
